@@ -118,7 +118,7 @@ PROPS = {
         "assumptions": [],
     },
     "C05": {
-        "modules": ["Cose.Props.C05", "Cose.Props.C05Sign"], "families": ["msg:C05", "msg:C04", "map"], "spec_ops": ["msg.otherkey"],
+        "modules": ["Cose.Props.C05", "Cose.Props.C05Sign", "Cose.Props.C05Shape"], "families": ["msg:C05", "msg:C04", "map"], "spec_ops": ["msg.otherkey"],
         "n_quick": 300, "n_thorough": 40000,
         "rule": "per case: a produce with the protected alg given as int / int64 / key.Alg / other width / another registered alg / text / nil / out-of-range; a produce with nil headers (defaults recorded) and its consume; "
                 "a consume with a key of another algorithm sharing the key bytes where the family allows (HMAC 256/64 vs 256/256, AES-MAC, CCM, GCM); round 13 (c'): msg.otherkey — the same decoded object asked under the right key and then under the other one, and the other way round, answered like a fresh object under the second key; a message without protected alg; foreign messages with alg in both buckets and later signatures naming another algorithm; round 12 (e): for every (kind, algorithm) pair in turn a hand-built message labelled with a sibling identifier of the key's algorithm (-53, -19, -9, -47, -51, -52) or an unimplemented one, authenticated by the key: refused",
